@@ -195,3 +195,89 @@ def subscript_cases(r: random.Random, tier: str) -> list[tuple[str, dict[str, An
         src = "{% assign x = " + f + " %}" + shape
         out.append((src, {"a": CONTAINERS[ci], "b": [0, 1, 2]}))
     return out
+
+
+# ---------------------------------------------------------------- environment configurations
+
+# (resource limits on, suppress_blank_control_flow_blocks, auto_escape)
+CONFIGS: list[tuple[bool, bool, bool]] = [(lim, sup, esc) for lim in (True, False) for sup in (True, False) for esc in (False, True)]
+
+
+# ---------------------------------------------------------------- blank blocks x buffer-using tags
+
+BLANK_WRAPPERS = [
+    "{S}", "{% if true %}{S}{% endif %}", "{% if false %}{% else %}{S}{% endif %}", "{% if false %}{% elsif true %}{S}{% endif %}",
+    "{% unless false %}{S}{% endunless %}", "{% for i in (1..2) %}{S}{% endfor %}", "{% for i in nothing %}{% else %}{S}{% endfor %}",
+    "{% case 1 %}{% when 1 %}{S}{% endcase %}", "{% case 2 %}{% when 1 %}{% else %}{S}{% endcase %}",
+    "{% if true %}{% if true %}{S}{% endif %}{% endif %}", "{% for i in (1..2) %}{% if true %}{S}{% endif %}{% endfor %}",
+    "{% if true %}{% for i in (1..2) %}{S}{% endfor %}{% endif %}", "{% with w: 1 %}{S}{% endwith %}",
+    "{% if true %}\n  {S}\n{% endif %}", "{% if true %}{% comment %}c{% endcomment %}{S}{% endif %}",
+    "{% capture outer %}{% if true %}{S}{% endif %}{% endcapture %}", "{% macro mm %}{% if true %}{S}{% endif %}{% endmacro %}{% call mm %}",
+]
+BUFFER_TAGS = [
+    "{% capture c %}x{{ a }}{% endcapture %}", "{% capture c %}{% endcapture %}", "{% capture c %} {% endcapture %}",
+    "{% capture c %}{% capture d %}y{% endcapture %}{{ d }}{% endcapture %}",
+    "{% capture c %}{% for j in (1..3) %}{{ j }}{% endfor %}{% endcapture %}",
+    "{% capture c %}{% if true %}{% capture d %}z{% endcapture %}{% endif %}{% endcapture %}",
+    "{% assign v = 1 %}", "{% assign v = 'x' | append: a %}", "{% include 'cap' %}", "{% render 'cap' %}", "{% include 'blankcap' %}",
+    "{% macro m %}{% capture c %}z{% endcapture %}{{ c }}{% endmacro %}{% call m %}", "{% increment n %}", "{% decrement n %}",
+    "{% cycle 'a', 'b' %}", "{% echo '' %}", "{% echo a %}", "{{ a }}", "{{ '' }}", "{% liquid capture c\n echo 'q'\n endcapture %}",
+    "{% liquid if true\n capture c\n echo 'q'\n endcapture\n endif %}", "{% translate %}Hi{% endtranslate %}",
+    "{% capture c %}{% translate %}Hi {{ a }}{% endtranslate %}{% endcapture %}", "{% break %}", "{% continue %}",
+    "{% capture c %}" + "0123456789" * 40 + "{% endcapture %}",
+]
+BUFFER_TEMPLATES = {
+    "cap": "{% capture pc %}p{{ a }}{% endcapture %}", "blankcap": "{% if true %}{% capture pc %}p{% endcapture %}{% endif %}",
+    "base": "{% block b %}B{% endblock %}|{% block c %}{% if true %}{% capture bc %}q{% endcapture %}{% endif %}{% endblock %}",
+}
+# children of 'base' whose overridden block is blank except for a capture / block.super
+INHERIT_CHILDREN = [
+    "{% extends 'base' %}{% block b %}{% if true %}{% capture c %}{{ block.super }}{% endcapture %}{% endif %}{% endblock %}",
+    "{% extends 'base' %}{% block b %}{% capture c %}{{ block.super }}{% endcapture %}{% endblock %}",
+    "{% extends 'base' %}{% block b %}{% for i in (1..2) %}{% capture c %}{{ block.super }}{{ i }}{% endcapture %}{% endfor %}{{ c }}{% endblock %}",
+    "{% extends 'base' %}{% block c %}{% if true %}{{ block.super }}{% endif %}{% endblock %}",
+    "{% extends 'base' %}{% block c %}{% if true %}{% capture c %}{{ block.super }}{% endcapture %}{% endif %}{{ c }}{% endblock %}",
+    "{% extends 'base' %}{% block b %}{% case 1 %}{% when 1 %}{% capture c %}x{% endcapture %}{% endcase %}{% endblock %}",
+]
+
+
+def buffer_cases() -> list[tuple[str, dict[str, str], dict[str, Any]]]:
+    out = []
+    data = {"a": "A<b>", "nothing": []}
+    for w in BLANK_WRAPPERS:
+        for t in BUFFER_TAGS:
+            out.append((w.replace("{S}", t) + "[{{ c }}{{ v }}]", BUFFER_TEMPLATES, data))
+    for c in INHERIT_CHILDREN:
+        out.append((c, BUFFER_TEMPLATES, data))
+    return out
+
+
+# ---------------------------------------------------------------- stray break / continue
+
+INTERRUPT_TEMPLATES = {
+    "pb": "{% break %}x", "pc": "a{% continue %}b", "pib": "{% if true %}{% break %}{% endif %}", "plb": "{% liquid\n continue %}",
+    "pfor": "{% for i in (1..2) %}{{ i }}{% endfor %}{% break %}",
+}
+INTERRUPT_SOURCES = [
+    "{% break %}", "{% continue %}", "a{% break %}b", "a{% continue %}b", "{% if true %}{% break %}{% endif %}x",
+    "{% if false %}{% else %}{% continue %}{% endif %}x", "{% unless false %}{% break %}{% endunless %}",
+    "{% case 1 %}{% when 1 %}{% break %}{% endcase %}", "{% liquid\n break %}", "{% liquid if true\n continue\n endif %}",
+    "{% for i in (1..2) %}{{ i }}{% endfor %}{% break %}z", "{% for i in (1..2) %}{% break %}{% endfor %}{% continue %}z",
+    "{% for i in nothing %}{% else %}{% break %}{% endfor %}", "{% capture c %}{% break %}{% endcapture %}",
+    "{% with a: 1 %}{% continue %}{% endwith %}", "{% macro m %}{% break %}{% endmacro %}{% call m %}",
+    "{% for i in (1..2) %}{% call m %}{% endfor %}{% macro m %}{% break %}{% endmacro %}",
+    "{% for i in (1..2) %}{% macro m %}{% continue %}{% endmacro %}{% call m %}{% endfor %}",
+    "{% render 'pb' %}", "{% render 'pc' %}", "{% include 'pb' %}", "{% include 'pc' %}", "{% include 'pib' %}", "{% render 'pib' %}",
+    "{% include 'plb' %}", "{% render 'plb' %}", "{% include 'pfor' %}", "{% render 'pfor' %}",
+    "{% for i in (1..2) %}{% include 'pb' %}{% endfor %}", "{% for i in (1..2) %}{% include 'pc' %}{{ i }}{% endfor %}",
+    "{% for i in (1..2) %}{% render 'pb' %}{% endfor %}", "{% for i in (1..2) %}{% render 'pc' %}{% endfor %}",
+    "{% for i in (1..2) %}{% include 'pfor' %}{% endfor %}", "{% render 'pb' for (1..2) as v %}", "{% include 'pc' for (1..2) as v %}",
+    "{% extends 'ibase' %}{% block b %}{% break %}{% endblock %}", "{% block b %}{% continue %}{% endblock %}",
+    "{% if true %}{% for i in (1..2) %}{% endfor %}{% break %}{% endif %}", "{% translate %}a{% endtranslate %}{% break %}",
+    "{% tablerow i in (1..2) %}{% break %}{% endtablerow %}{% break %}",
+]
+
+
+def interrupt_cases() -> list[tuple[str, dict[str, str], dict[str, Any]]]:
+    tpl = dict(INTERRUPT_TEMPLATES, ibase="{% block b %}B{% endblock %}")
+    return [(s, tpl, {"nothing": []}) for s in INTERRUPT_SOURCES]
